@@ -8,7 +8,7 @@ import json
 from . import cases as casemod
 from . import replay, tlc
 
-MODULE_CONSTS = {"Trace_Obs": {"MCMode": "off", "OptNames": "{}", "MBLayouts": "{}", "MBRecs": "{}", "IOReqs": "{}", "IOShape": "{}", "NNames": "{}", "NDescs": "{}", "NCfgs": "{}", "RNodes": "{}", "RMode": "off"}}
+MODULE_CONSTS = {"Trace_Obs": {"MCMode": "off", "OptNames": "{}", "MBLayouts": "{}", "MBRecs": "{}", "IOReqs": "{}", "IOShape": "{}", "NNames": "{}", "NDescs": "{}", "NCfgs": "{}", "RNodes": "{}", "RMode": "off", "XModules": "{}", "XMode": "off"}}
 ALL = replay.ALL_ACTS
 NO_INDEX = [a for a in ALL if a != "Index"]
 
@@ -86,6 +86,21 @@ CORPORA = {
                           keep=lambda b: b["prog"][1].get("op") in ("sum", "max", "mean", "argmax", "var") and not b["prog"][1].get("keepdims")
                           and b["prog"][0]["shape"][0] >= 6),
     "d1-reduce-2d": dict(acts=["Reduce", "ArgReduce"], maxlen=1, preset="2d", sim=False, emit_all=True),
+    # C18: every reduction x axes x keepdims x split_every (int and per-axis dict) over int / bool / NaN-carrying sources
+    "d1-red": dict(acts=["Reduce", "ArgReduce", "TopK"], maxlen=1, preset="red", sim=False, emit_all=True, workers=4),
+    "d2-red-index": dict(acts=["Reduce", "ArgReduce"], acts2=["Index"], maxlen=2, preset="lean", sim=False, lean=True, workers=4),
+    "d2-index-red": dict(acts=["Index", "Rechunk", "Transpose", "Elemwise"], acts2=["Reduce", "ArgReduce"], maxlen=2, preset="lean", sim=False,
+                         lean=True, workers=4),
+    # C19: scans and differences over every chunking of 1-D sources up to 8 elements and two 2-D sources
+    "d1-scan": dict(acts=["Cumulative", "Diff"], maxlen=1, preset="win", sim=False, emit_all=True),
+    # C12: every basic index of the 1-D sources (all start / stop / step incl. out of range), lean tuples in 2-D / 3-D, integer lists,
+    # boolean masks (NumPy and dask), dask integer arrays, vindex, Ellipsis
+    "d1-index-1d": dict(acts=["Index", "Take"], maxlen=1, preset="1d", sim=False, smax=3, idxpad=2, emit_all=True, workers=4),
+    "d1-index-1d-q": dict(acts=["Index", "Take"], maxlen=1, preset="1d", sim=False, smax=2, idxpad=1, emit_all=True, workers=4),
+    "d1-index-nd": dict(acts=["Index", "Take"], maxlen=1, preset="lean", sim=False, lean=True, emit_all=True),
+    "d1-advindex": dict(acts=["AdvIndex"], maxlen=1, preset="small", sim=False, emit_all=True, workers=4),
+    "d2-advindex-after": dict(acts=["Index", "Transpose", "Elemwise", "Rechunk", "MaskSelect", "AdvIndex"], acts2=["AdvIndex", "Index"],
+                              maxlen=2, preset="lean", sim=False, lean=True, workers=8),
     # random arrays: bases, and every lean operation on a random base (C06, C07, C23)
     "d1-random": dict(acts=["Random"], maxlen=1, preset="lean1", sim=False, lean=False, emit_all=True),
     "d2-random": dict(acts=["Random"], acts2=ALL, maxlen=2, preset="lean1", sim=False, lean=True, workers=8, excl=EXCL_DEEP),
